@@ -95,6 +95,7 @@ H0 == [rearmed |-> FALSE,     \* a started / finished join was set back to WAITI
        stopIgnored |-> FALSE, \* stop(ERROR) on a PAUSED execution returned without effect (KF-C11-1)
        paused |-> FALSE,      \* a pause was requested (operator or pause command)
        delayedRestart |-> FALSE, \* a _refresh_task_state job restarted a join that was DELAYED (wait-after / retry delay): KF-C08-14
+       dupExisting |-> FALSE,    \* a start_task(first_run = False) was redelivered (KF-C06-1)
        reruns |-> 0,             \* accepted rerun / skip commands
        rerunT |-> {},            \* tasks the operator reran (a failed join that is rerun starts by the operator's decision)
        rerunWaiting |-> {},      \* joins that were WAITING when a finished execution was rerun (KF-C12-9)
@@ -113,7 +114,9 @@ NextTargets(t, s) ==
   IN [i \in 1..Len(c) |-> c[i].to]
 Cmd(to) == IF to \in Names THEN [c |-> "run", t |-> to] ELSE [c |-> to, t |-> ""]     \* to in fail / succeed / pause / noop
 Cmds(t, s) == LET ts == NextTargets(t, s) IN [i \in 1..Len(ts) |-> Cmd(ts[i])]
-ErrHandled(t, s) == s = "ERROR" /\ Fired(D.tasks[t].err) # <<>>
+\* (reverse workflows: no error handling - an ERROR task is never "handled")
+IsReverse == D.type = "reverse"
+ErrHandled(t, s) == ~IsReverse /\ s = "ERROR" /\ Fired(D.tasks[t].err) # <<>>
 \* dispatcher._rearrange_commands: noop dropped; the task commands before the first state-changing command are sorted
 \* (inconsistent comparator: the resulting order is left open); everything after a fail / succeed is dropped; what
 \* follows a pause is kept (it goes to the backlog)
@@ -210,6 +213,10 @@ Dispatch(S, cmds, inResume) ==
   IN IF cmds = <<>> THEN afterBacklog
      ELSE UNION {{Fold(S1, a, inResume) : a \in Arrangements(cmds)} : S1 \in afterBacklog}
 
+\* reverse workflows (ReverseWorkflowController._find_next_commands): every task of the target's dependency closure that has no
+\* execution yet and whose required tasks have all succeeded - after ANY completion, and at start / resume
+RevReady(tks) == {x \in Rng(D.closure) : tks[x].state = "none" /\ \A r \in Rng(D.tasks[x].requires) : tks[r].state = "SUCCESS"}
+CmdsR(tks) == LET rs == SeqOf(RevReady(tks)) IN [i \in 1..Len(rs) |-> Cmd(rs[i])]
 \* Workflow.check_and_complete
 Incomplete(s) == s \in {"IDLE", "RUNNING", "WAITING", "DELAYED", "PAUSED"}
 Checked(w, tks) ==
@@ -252,13 +259,13 @@ Complete(S, t, s0) ==
            Sj == [S EXCEPT !.newjobs = @ \o ac.jobs,
                            !.ax[t] = IF ac.again THEN [k \in 1..Len(@) |-> [@[k] EXCEPT !.a = FALSE]] ELSE @]
        IN IF s = "DELAYED" THEN {[Sj EXCEPT !.tk[t] = ac.row]}
-          ELSE LET cmds  == IF S.wf \in Final THEN <<>> ELSE Cmds(t, s)
+          ELSE LET cmds  == IF S.wf \in Final THEN <<>> ELSE IF IsReverse THEN CmdsR([S.tk EXCEPT ![t].state = s]) ELSE Cmds(t, s)
                    nexts == {cmds[i].t : i \in {j \in 1..Len(cmds) : cmds[j].c = "run"}}
                    \* (while PAUSED the processed flag is left as it is - FALSE for a fresh row, possibly TRUE for a re-armed join)
                    tk1   == [S.tk EXCEPT ![t] = [ac.row EXCEPT !.next = nexts, !.processed = (IF S.wf = "PAUSED" THEN S.tk[t].processed ELSE TRUE),
                                                                 !.errHandled = IF s = "ERROR" THEN (ErrHandled(t, s) /\ S.wf \notin Final) ELSE @]]
                IN IF S.wf = "PAUSED" THEN {[Sj EXCEPT !.tk = tk1]}
-                  ELSE Dispatch([Sj EXCEPT !.tk = tk1, !.ops = IF nexts = {} /\ Done(s) THEN Append(@, Op("check", "")) ELSE @], cmds, FALSE)
+                  ELSE Dispatch([Sj EXCEPT !.tk = tk1, !.ops = IF (nexts = {} \/ IsReverse) /\ Done(s) THEN Append(@, Op("check", "")) ELSE @], cmds, FALSE)
 \* task_handler._check_affected_tasks: one schedule_if_needed per existing downstream join (a Python set: any order)
 CheckAffected(S, t) ==
   IF ~Done(S.tk[t].state) \/ S.wf \in Final THEN {S}
@@ -318,7 +325,7 @@ Init == /\ wf = "none"
         /\ hist = H0
         /\ ev = [a |-> "Init"]
 
-StartTasks == {x \in Names : Inbound(x) = {} /\ D.tasks[x].wf = D.name}
+StartTasks == IF IsReverse THEN RevReady(tk) ELSE {x \in Names : Inbound(x) = {} /\ D.tasks[x].wf = D.name}
 StartWorkflow ==
   /\ wf = "none"
   \* (the order in which the start tasks are dispatched is the iteration order of the specification's task
@@ -421,7 +428,9 @@ Deliver(m) ==
 Dup(c) ==
   /\ c \in seen /\ hist.dups < DupBudget
   /\ LET m == [id |-> 0, m |-> c.m, t |-> c.t, k |-> c.k, res |-> c.res, fr |-> c.fr, w |-> c.w]
-     IN /\ CASE c.m = "start_task" -> \E S \in HandleStartTask(m) : Commit([S EXCEPT !.hist.dups = @ + 1]) /\ jobs' = AddJobs(jobs, S.newjobs) /\ UNCHANGED msgs
+     \* (a redelivered start_task(first_run = False) - sent by resume or rerun - runs _run_existing once more: KF-C06-1)
+     IN /\ CASE c.m = "start_task" -> \E S \in HandleStartTask(m) : Commit([S EXCEPT !.hist.dups = @ + 1, !.hist.dupExisting = @ \/ ~c.fr])
+                                                                      /\ jobs' = AddJobs(jobs, S.newjobs) /\ UNCHANGED msgs
              \* the executor refuses to run a redelivered request and reports an error SYNCHRONOUSLY: the engine handles
              \* on_action_complete(error) inside this very step
              [] c.m = "run_action" -> \E S \in HandleActionComplete([m EXCEPT !.res = "ERROR"]) : Commit([S EXCEPT !.hist.dups = @ + 1]) /\ jobs' = AddJobs(jobs, S.newjobs) /\ UNCHANGED msgs
@@ -552,7 +561,7 @@ OpResume ==
                LET ex == [i \in 1..Len(ip) |-> [c |-> "existing", t |-> ip[i]]]
                    RECURSIVE Routes(_)
                    Routes(k) == IF k > Len(up) THEN <<>> ELSE Cmds(up[k], tk[up[k]].state) \o Routes(k + 1)
-                   cmds == SelectSeq(ex \o Routes(1), LAMBDA c : c.c # "pause")
+                   cmds == SelectSeq(ex \o (IF IsReverse THEN CmdsR(tk) ELSE Routes(1)), LAMBDA c : c.c # "pause")
                IN IF cmds = <<>> /\ backlog = <<>>
                   THEN Commit([S0 EXCEPT !.wf = Checked("RUNNING", tk1)])
                   ELSE \E S \in Dispatch(S0, cmds, TRUE) :
@@ -592,11 +601,11 @@ OpRerun(t, reset) ==
 \* skip: the command is carried out inside the dispatcher - Task.complete(SKIPPED, skip = True): no policies, the task follows
 \* on-success, then _check_affected_tasks
 CompleteSkip(S, t) ==
-  LET cmds  == IF S.wf \in Final THEN <<>> ELSE Cmds(t, "SKIPPED")
+  LET cmds  == IF S.wf \in Final THEN <<>> ELSE IF IsReverse THEN CmdsR([S.tk EXCEPT ![t].state = "SKIPPED"]) ELSE Cmds(t, "SKIPPED")
       nexts == {cmds[i].t : i \in {j \in 1..Len(cmds) : cmds[j].c = "run"}}
       tk1   == [S.tk EXCEPT ![t] = [@ EXCEPT !.state = "SKIPPED", !.next = nexts, !.processed = (IF S.wf = "PAUSED" THEN @ ELSE TRUE)]]
   IN IF S.wf = "PAUSED" THEN {[S EXCEPT !.tk = tk1]}
-     ELSE Dispatch([S EXCEPT !.tk = tk1, !.ops = IF nexts = {} THEN Append(@, Op("check", "")) ELSE @], cmds, FALSE)
+     ELSE Dispatch([S EXCEPT !.tk = tk1, !.ops = IF nexts = {} \/ IsReverse THEN Append(@, Op("check", "")) ELSE @], cmds, FALSE)
 OpSkip(t) ==
   /\ wf # "none" /\ hist.ops < OpBudget /\ "skip" \in OpKinds /\ tk[t].state = "ERROR" /\ (NoopOps \/ wf \in {"RUNNING", "ERROR", "CANCELLED"})
   /\ IF wf \in {"PAUSED", "SUCCESS"} THEN Commit(Spend(Cur)) /\ UNCHANGED jobs
@@ -653,9 +662,9 @@ NoWaitingAtRestM == Quiet => ((\A x \in Names : tk[x].state # "WAITING") \/ wf \
 \* (C08: with a retry policy at most count + 1 attempts)
 \* (every accepted rerun allows as many attempts again)
 Attempts(x) == (IF IsItems(x) THEN Pol(x).items * (Pol(x).retry + 1) ELSE Pol(x).retry + 1) * (1 + hist.reruns)
-JoinOnceM == KF_Rearmed \/ hist.delayedRestart \/ hist.timeoutRetry \/ \A x \in Names : IsJoin(x) => Len(ax[x]) <= Attempts(x)
+JoinOnceM == KF_Rearmed \/ hist.dupExisting \/ hist.delayedRestart \/ hist.timeoutRetry \/ \A x \in Names : IsJoin(x) => Len(ax[x]) <= Attempts(x)
 \* C06 / C10: a plain task starts its action once - modulo the double start after resume; redeliveries never start anything
-StartOnceM == KF_DoubleStart \/ hist.timeoutRetry \/ \A x \in Names : ~IsJoin(x) => Len(ax[x]) <= Attempts(x)
+StartOnceM == KF_DoubleStart \/ hist.dupExisting \/ hist.timeoutRetry \/ \A x \in Names : ~IsJoin(x) => Len(ax[x]) <= Attempts(x)
 \* C07: one execution per item index (no retry / rerun here), never more live executions than the concurrency limit (a with-items
 \* JOIN is started without its policies - KF-C07-1 - and has no limit), the task completes only when every index is accepted, in ERROR
 \* iff an accepted item failed
@@ -673,6 +682,10 @@ FinalIffLastM == Quiet => \A x \in Names : (Pol(x).retry > 0 /\ ~Pol(x).failOn /
                                => ((tk[x].state = "SUCCESS") <=> (ax[x][Len(ax[x])].s = "SUCCESS"))
 StopAtFirstSuccessM == \A x \in Names : (Pol(x).retry > 0 /\ ~Pol(x).failOn /\ Pol(x).contOn = "none" /\ ~KF_Rearmed /\ ~hist.delayedRestart /\ ~KF_DoubleStart /\ ~hist.timeoutRetry)
                           => \A k \in 1..Len(ax[x]) : ax[x][k].s = "SUCCESS" => k = Len(ax[x])
+\* C04 / C01 (reverse workflows): only tasks of the target's dependency closure are ever created, and only once everything they
+\* require has succeeded
+ReqGateM == IsReverse => \A x \in Names : tk[x].state # "none" =>
+                            (x \in Rng(D.closure) /\ \A r \in Rng(D.tasks[x].requires) : tk[r].state = "SUCCESS")
 \* C08: fail-on - a task with fail-on never ends SUCCESS; pause-before - the action of such a task is not started before the
 \* execution has been PAUSED for it (hist.paused) - modulo the double start after resume
 FailOnAppliedM == \A x \in Names : Pol(x).failOn => tk[x].state # "SUCCESS"
